@@ -500,6 +500,7 @@ where
     fn set_params(&mut self, params: &Vector<Model::ScalarType, Dyn, Self::ParameterStorage>) {
         if self.model.set_params(params.clone()).is_err() {
             self.cached = None;
+            return;
         }
         // matrix of weighted model function values
         let Phi_w = self.model.eval().ok().map(|Phi| &self.weights * Phi);
@@ -638,6 +639,7 @@ where
     fn set_params(&mut self, params: &Vector<Model::ScalarType, Dyn, Self::ParameterStorage>) {
         if self.model.set_params(params.clone()).is_err() {
             self.cached = None;
+            return;
         }
         // matrix of weighted model function values
         let Phi_w = self.model.eval().ok().map(|Phi| &self.weights * Phi);
